@@ -6,7 +6,7 @@ from gencheck import *
 
 def run(tier):
     C = Check('C19', tier)
-    C.prove('Properties/C19.v')
+    C.prove('Properties/C19.v', bridges={'Model/Recover.v': []})
     C.cov['tie']['generated classes'] = ('correspondence-only (CPython attribute protocol is the oracle): every generated class incl. case-data classes is poked through its whole '
                                          'public interface; serializations before/after must be identical; Model/ObjModel.v is the object/heap model the theorems are about')
     quick = tier == 'quick'
@@ -38,8 +38,10 @@ def run(tier):
                 except Exception:
                     continue
                 jobs.append(dict(op='immut', cls=cls, value=v, arrays=arrays, poison=poison))
-        entries.append(dict(name=t['name'], tree=t['tree'], jobs=jobs))
+        entries.append(dict(name=t['name'], tree=t['tree'], jobs=jobs, want_sources=True))
     run_entries(C, runner, entries)
+    recover_stream(C, entries, 'c19')
+    C.cov['tie']['generated classes (structure)'] = ('translation validation: tools/gen2instr.py recovers the instruction lists of every generated serialize / deserialize / __init__ from the SOURCE TEXT (fail-closed) and Model/Recover.v compares them with elab of the same tree (vm_compute): the theorems about the elaborated instruction lists apply to the code as emitted, for all objects and bytes')
     n = nd = 0
     ser_cases = {}
     for e in entries:
